@@ -4,7 +4,7 @@ CHECK = {
  'rule': 'rapid-generated histories on a real node + real transaction pool + real generator (all validator keys enabled; the wall clock sits in slot '
          '1000 so a forge is possible whenever the tip is in an older slot): prefix of 0-12 harness blocks, then 2-9 actions from forge / delete tip(s) / '
          'extend with other validators\' blocks / restart the generator on the same generator database; each forge draws pool contents (0-4 senders, '
-         'consecutive nonces, fees with ties, sizes, a transaction failing verification or execution at generation time), the size limit (120 B ... 15 KiB), '
+         'consecutive nonces, fees with ties and from the top of the uint64 range, sizes, a transaction failing verification or execution at generation time), the size limit (120 B ... 15 KiB), '
          'block assets, and optionally certificates (last precommitted height or the whole uncertified range) so that a non-empty aggregate commit is available; a quarter of the cases are the certificate scenario: 1-2 harness blocks change the certificate threshold, the chain grows until the change is final but not certified, all validators certify the whole range, then the generator forges. Non-trivial = history with >=3 forges, a restart and a '
          'forge at a lower height than an earlier one; selection label when >=2 senders, a failure and a size cut occur. Distinct by digest of the action log',
  'level_text': 'For every forged block: persisted generator info already covers it when it is handed to consensus; the same node accepts it at that '
